@@ -48,13 +48,15 @@ Lemma live_Cholera : check_live spec_Cholera "step_state" = true /\ check_live s
 Proof. vm_compute. repeat split. Qed.
 Lemma live_Gonorrhea : check_live spec_Gonorrhea "step_state" = true /\ check_live spec_Gonorrhea "set_prognoses" = true.
 Proof. vm_compute. repeat split. Qed.
+Lemma live_Syphilis : check_live spec_Syphilis "step_state" = true /\ check_live spec_Syphilis "set_prognoses" = true.
+Proof. vm_compute. repeat split. Qed.
 Lemma live_HIV : check_live spec_HIV "step_state" = true /\ check_live spec_HIV "set_prognoses" = true.
 Proof. vm_compute. repeat split. Qed.
 
 (* cumulative infections = number of infection events (running sum, see C15); where the arrow set has no way back to
    `susceptible`, an agent is infected at most once: the compartment never returns to susceptible *)
 Definition no_return (sp : dspec) : bool := negb (existsb (fun ab => String.eqb (snd ab) "susceptible") (s_arrows sp)).
-Lemma no_return_SIR_like : no_return spec_SIR = true /\ no_return spec_Measles = true /\ no_return spec_Ebola = true /\ no_return spec_Cholera = true /\ no_return spec_HIV = true.
+Lemma no_return_SIR_like : no_return spec_SIR = true /\ no_return spec_Measles = true /\ no_return spec_Ebola = true /\ no_return spec_Cholera = true /\ no_return spec_HIV = true /\ no_return spec_Syphilis = true.
 Proof. vm_compute. repeat split. Qed.
 Lemma arrow_no_return sp a : no_return sp = true -> a <> "susceptible" -> arrow_ok sp a "susceptible" = false.
 Proof.
